@@ -7,14 +7,14 @@ T = []
 _names = set()
 
 
-def H(name, call, props, cfg="w64", kind="pass", unwind=8, bound="", finding=None, stubs=()):
+def H(name, call, props, cfg="w64", kind="pass", unwind=8, bound="", finding=None, stubs=(), pin=False):
     """props: dict property -> 'quick'|'thorough'"""
     full = name if cfg == "w64" else "%s_%s" % (name, cfg)
     key = (full, cfg)
     assert key not in _names, key
     _names.add(key)
     T.append({"name": full, "call": call, "props": dict(props), "cfg": cfg, "kind": kind,
-              "unwind": unwind, "bound": bound, "finding": finding, "stubs": list(stubs)})
+              "unwind": unwind, "bound": bound, "finding": finding, "stubs": list(stubs), "pin": pin})
 
 
 def Q(*ps):
@@ -492,6 +492,12 @@ def div_family():
                                       "h_div::div_i_trunc::<%d,%d,%d>(%s,%s,%d,%d,4,Some([%s]))" % (na, nb, p, SIGN[sa], SIGN[sb], w, f, ",".join(map(str, lit))),
                                       Q("C02", "C15") if quick else TH("C02", "C15"), unwind=p + 6,
                                       bound="IBig truncating division %s, dividend %d structured words, literal |divisor| %s, signs %s%s" % (TW[w], na, ln, sa, sb))
+    for dn, d in (("lg705", [7, 0, 5]), ("lg4_a", [3, 0, 0, 11]), ("dw_shift", [9, 7]), ("odd", [0x1234567])):
+        for w, wn in enumerate(("div", "rem", "divrem", "plain")):
+            n = len(d)
+            H("c02_constdiv_cons_%s_%s" % (dn, wn), "h_div::const_div_constructed::<%d,%d,%d>([%s],%d,6,6)" % (n, n, n + 1, ",".join(map(str, d)), w),
+              Q("C02") if dn in ("lg705", "dw_shift") else TH("C02"), unwind=n + 8,
+              bound="ConstDivisor(%s) %s on dividends q*d + r (q, r < 2^6) of exactly as many words as the divisor" % (dn, wn))
     for cfg in ("i64", "i32"):
         for sa in "pn":
             for sb in "pn":
@@ -634,12 +640,12 @@ def nt_family():
     for i in range(64):
         lo = max(1, i * 1024)
         span = 1024 if i else 1023
-        H("c12_log2_u16_%d" % i, "h_nt::log2_u16::<%d>(%d,false)" % (span, lo), Q("C12", "C19") if i in (0, 1, 16, 32, 63) else TH("C12", "C19"), unwind=1030,
+        H("c12_log2_u16_%d" % i, "h_nt::log2_u16::<%d>(%d,false)" % (span, lo), Q("C12", "C19") if i in (0, 1, 16, 32, 63) else TH("C12", "C19"), unwind=1030, pin=(i in (0, 32, 63)),
           bound="no_std log2_bounds for every u16 in [%d,%d], exact against floor/ceil(2^40 log2 n)" % (lo, lo + span - 1))
     H("c12_log2_zero", "h_nt::log2_zero()", Q("C12"), unwind=4)
     for i in range(64):
         lo = 32768 + i * 512
-        H("c12_log2_u32_%d" % i, "h_nt::log2_wide::<512,513>(false,%d)" % lo, Q("C12", "C19") if i in (0, 31, 63) else TH("C12", "C19"), unwind=520,
+        H("c12_log2_u32_%d" % i, "h_nt::log2_wide::<512,513>(false,%d)" % lo, Q("C12", "C19") if i in (0, 31, 63) else TH("C12", "C19"), unwind=520, pin=(i in (0, 63)),
           bound="no_std log2_bounds for every u32 > 65535 whose 16-bit prefix is in [%d,%d]: bounds must enclose a rigorous enclosure of log2 n" % (lo, lo + 511))
         H("c12_log2_u64_%d" % i, "h_nt::log2_wide::<512,513>(true,%d)" % lo, TH("C12", "C19") if i in (0, 31, 63) else {"C12": "probe"}, unwind=520,
           bound="no_std log2_bounds for every u64 > 65535 whose 16-bit prefix is in [%d,%d]" % (lo, lo + 511))
@@ -704,6 +710,10 @@ def mod_family():
     for mn, m in (("fsq", [1, 2, 1]), ("f_c3", [3, 4, 1])):
         H("c13_inv_large_%s" % mn, "h_mod::ring_inv_large::<3>([%s],[1,1],8)" % ",".join(map(str, m)), TH("C13"), unwind=40,
           bound="Reduced::inv in the 3-word ring m = (2^64+1)*c for elements +-k*(2^64+1), k < 2^8: must be None")
+    for mn, m in (("lgtop", [5, 0, (1 << 63) + 9]), ("lg705", [7, 0, 5]), ("lg_sh1", [3, 1, 1 << 62])):
+        for op, on in enumerate(("add", "sub", "neg", "dbl", "subswap")):
+            H("k_ring_large_%s_%s" % (mn, on), "h_mod::ring_large_kernel::<3>([%s],%d)" % (",".join(map(str, m)), op), Q("C13") if mn != "lg_sh1" else TH("C13"), unwind=8,
+              bound="multi-word ring kernel %s mod the literal 3-word modulus %s: every pair of residues" % (on, mn))
     for op in range(4):
         H("c13_mix_%d" % op, "h_mod::ring_mix(%d)" % op, Q("C13", "C16"), kind="panic", unwind=8, bound="operands from two ConstDivisor instances panic")
 
@@ -819,6 +829,8 @@ def demote_slow(limit=75.0):
         return
     t = json.load(open(path))
     for e in T:
+        if e.get("pin"):
+            continue  # pinned: stays in the quick tier up to the per-harness time limit (needed to keep a region covered)
         if t.get(e["name"], 0) > limit:
             for prop in list(e["props"]):
                 if e["props"][prop] == "quick":
@@ -845,6 +857,9 @@ def thin():
     import zlib
     for e in T:
         for prop, own in (("C15", "c15_"), ("C17", "c17_"), ("C19", "c19_")):
+            keepers = ("c09_ones", "c05_", "c15_clone", "c17_", "c07_from")
+            if prop == "C17" and e["name"].startswith(keepers):
+                continue
             if e["props"].get(prop) == "quick" and not e["name"].startswith(own):
                 keep = 4 if prop != "C19" else 2
                 if zlib.crc32((prop + e["name"]).encode()) % keep != 0:
